@@ -31,7 +31,7 @@
 (***************************************************************************)
 EXTENDS Naturals, Integers, Sequences, FiniteSets
 
-RegionKinds == {"magic", "len4", "len8", "zigzag", "uvarint", "meta", "body", "line"}
+RegionKinds == {"magic", "len4", "len8", "zigzag", "uvarint", "meta", "body", "line", "enc"}
 FixedLenKinds == {"len4", "len8"}
 VarLenKinds == {"zigzag", "uvarint"}
 LenKinds == FixedLenKinds \cup VarLenKinds
@@ -49,6 +49,13 @@ FlipArgs == {"lo", "hi"}                               \* lowest / highest bit
 SetArgs == {"0", "255", "127", "128"}
 Inflations == {"x2", "p1", "i31", "u32", "neg", "zero"} \* value * 2, + 1, 2^31-1, 2^32-1, -1 (all ones), 0
 Deltas == {-1, 0, 1}
+(* kind "enc": one of the first bytes of an uncompressed page body (the      *)
+(* header / length block of a value encoding), read as a one-byte varint,    *)
+(* unsigned ("uv") or zig-zag ("zz"), and moved to value + 1, + 5, * 2, the  *)
+(* length of the page body, that length - 1 (re-encoded in place; the        *)
+(* harness skips a plan whose result does not fit the byte or equals it)     *)
+BumpArgs == {"p1", "p5", "x2", "len", "lenm1"}
+BumpSels == {"uv", "zz"}
 
 P(op, arg, sel, d, fix, r, donor) == [op |-> op, arg |-> arg, sel |-> sel, d |-> d, fix |-> fix, r |-> r, donor |-> donor]
 
@@ -60,7 +67,11 @@ PlansFor(S, r, Donors) ==
   LET k == S[r].k
       w == S[r].w
       sels == IF w = 1 THEN {"first"} ELSE IF w = 2 THEN {"first", "last"} ELSE {"first", "mid", "last"}
-  IN    {P("flip", a, s, 0, FALSE, r, 0) : a \in FlipArgs, s \in sels \ {"mid"}}
+  IN IF k = "enc" THEN
+          {P("bump", a, s, 0, FALSE, r, 0) : a \in BumpArgs, s \in BumpSels}
+     \cup {P("flip", "hi", "first", 0, FALSE, r, 0)}
+     ELSE
+        {P("flip", a, s, 0, FALSE, r, 0) : a \in FlipArgs, s \in sels \ {"mid"}}
    \cup {P("set", a, s, 0, FALSE, r, 0) : a \in SetArgs, s \in sels}
    \cup {P("trunc", "", s, d, FALSE, r, 0) : s \in {"lo", "hi"}, d \in Deltas}
    \cup (IF k \in LenKinds THEN {P("inflate", a, "", 0, FALSE, r, 0) : a \in Inflations} ELSE {})
@@ -84,14 +95,14 @@ PlanAt(op, sel, d, lo, hi, flo, fhi, n, pos) ==
          (CASE sel = "first" -> lo [] sel = "last" -> hi - 1 [] sel = "mid" -> lo + (hi - lo) \div 2 [] OTHER -> pos)
     [] op = "trunc" ->
          (CASE sel = "lo" -> Clamp(lo + d, 0, n) [] sel = "hi" -> Clamp(hi + d, 0, n) [] OTHER -> Clamp(pos, 0, n))
-    [] op \in {"inflate", "dup", "drop", "splice"} -> lo
+    [] op \in {"inflate", "dup", "drop", "splice", "bump"} -> lo
     [] op \in {"dupframe", "dropframe", "spliceframe"} -> flo
     [] op = "xsplice" -> Min2(pos, n)
     [] OTHER -> 0
 
 (* length of the file after the plan                                         *)
 PlanNewLen(op, sel, d, lo, hi, flo, fhi, n, pos, neww) ==
-  CASE op \in {"flip", "set", "none"} -> n
+  CASE op \in {"flip", "set", "none", "bump"} -> n
     [] op = "trunc" -> PlanAt(op, sel, d, lo, hi, flo, fhi, n, pos)
     [] op = "inflate" -> n - (hi - lo) + neww
     [] op = "dup" -> n + (hi - lo)
@@ -111,7 +122,7 @@ PlanFirstTouched(op, sel, d, lo, hi, flo, fhi, n, pos) ==
 
 (* in-place plans: no byte at or after this position may differ (-1: none)   *)
 PlanLastTouched(op, sel, d, lo, hi, flo, fhi, n, pos, k, fix) ==
-  CASE op \in {"flip", "set"} -> PlanAt(op, sel, d, lo, hi, flo, fhi, n, pos) + 1
+  CASE op \in {"flip", "set", "bump"} -> PlanAt(op, sel, d, lo, hi, flo, fhi, n, pos) + 1
     [] op = "inflate" /\ k \in FixedLenKinds -> hi
     [] op = "none" -> 0
     [] OTHER -> -1
@@ -160,7 +171,7 @@ Apply(S, D, p, neww) ==
       flo == FrameLo(S, p.r) fhi == FrameHi(S, p.r)
       at == PlanAt(p.op, p.sel, p.d, lo, hi, flo, fhi, n, 0)
       Sub(a, b) == SubSeq(c, a + 1, b)                 \* cells [a, b)
-  IN CASE p.op \in {"flip", "set"} -> Sub(0, at) \o New(1) \o Sub(at + 1, n)
+  IN CASE p.op \in {"flip", "set", "bump"} -> Sub(0, at) \o New(1) \o Sub(at + 1, n)
        [] p.op = "trunc" -> Sub(0, at)
        [] p.op = "inflate" -> Sub(0, lo) \o New(neww) \o Sub(hi, n)
        [] p.op = "dup" -> Sub(0, hi) \o Sub(lo, hi) \o Sub(hi, n)
